@@ -22,3 +22,5 @@ def run(ctx):
         adpcmenc.run(ctx, "C05", 100 if q else 1000)
         from .. import codecs20       # a table entry of the tree differs from the published one: look for an input that shows it
         codecs20.search(ctx)
+        from .. import querycamp     # count / position / end-of-data clauses of reads with non-audio calls in between
+        querycamp.run(ctx, "C05", parts=("r",))
